@@ -2035,6 +2035,42 @@ Proof.
   apply IH. apply Inv_srv_remove. exact H.
 Qed.
 
+Lemma TA_remove_app c name : Inv c -> TreeWf (remove_app c name) /\ AggLocal (remove_app c name).
+Proof.
+  intros (HA & W & L).
+  unfold remove_app. destruct (get_app name (c_apps c)) as [a|]; [|auto].
+  set (c1 := match a_server a with
+             | Some sn => if is_member c sn then srv_remove c sn name else c
+             | None => c
+             end).
+  assert (H1 : TreeWf c1 /\ AggLocal c1).
+  { subst c1. destruct (a_server a) as [sn|]; [|auto]. destruct (is_member c sn); [apply srv_remove_ok; assumption|auto]. }
+  set (c2 := match a_alloc a with Some (l0, p0) => upd_alloc c1 l0 p0 (alloc_del_app name) | None => c1 end).
+  apply (TA_ext c1); [|exact H1].
+  assert (E2 : core3 c1 c2) by (subst c2; destruct (a_alloc a) as [[l0 p0]|]; [apply upd_alloc_core3|apply core3_refl]).
+  eapply core3_trans; [exact E2|]. eapply core3_trans; [apply release_core3|]. repeat split.
+Qed.
+Lemma restore_put_as c sn an vb ex : asteps c (fst (restore_put c sn an vb ex)).
+Proof.
+  unfold restore_put. destruct vb; [apply srv_restore_as|].
+  destruct (get_app an (c_apps c)) as [a|]; [|apply as_refl]. destruct (a_once a); [apply as_refl|].
+  destruct (srv_put c sn an) as [c'|] eqn:E; [|apply as_refl]. cbn [fst]. eapply as_put; exact E.
+Qed.
+Lemma force_identity_core3 c an i : core3 c (force_identity c an i).
+Proof.
+  unfold force_identity. destruct i as [i|]; [|apply core3_refl]. destruct (get_app an (c_apps c)) as [a|]; [|apply core3_refl].
+  destruct (group_of c a) as [[g grp]|]; repeat split.
+Qed.
+Lemma TA_restore_op c sn an vb ex ident : Inv c ->
+  TreeWf (restore_op c sn an vb ex ident) /\ AggLocal (restore_op c sn an vb ex ident).
+Proof.
+  intros HI. unfold restore_op. destruct (get_app an (c_apps c)) as [a|]; [|exact (proj2 HI)].
+  pose proof (Inv_asteps _ _ (restore_put_as c sn an vb ex) HI) as H1.
+  destruct (restore_put c sn an vb ex) as [c1 ok]. cbn [fst] in H1.
+  destruct ok; [apply (TA_ext c1); [apply force_identity_core3|exact (proj2 H1)]|].
+  destruct (a_once a); [apply TA_remove_app; exact H1|exact (proj2 H1)].
+Qed.
+
 Definition wf_op_agg (c : cell) (o : op) : Prop :=
   match o with
   | OAddBucket name level parent =>
@@ -2066,18 +2102,7 @@ Proof.
     + apply (TA_ext c); [|auto]. split; [reflexivity|]. split; [|reflexivity].
       unfold c_upd_srv. cbn [c_servers set]. apply upd_srv_absent. exact Hs.
   - (* OAddApp *) apply (TA_ext c); [apply add_app_core3|auto].
-  - (* ORemoveApp *)
-    unfold remove_app. destruct (get_app name (c_apps c)) as [a|]; [|auto].
-    set (c1 := match a_server a with
-               | Some sn => if is_member c sn then srv_remove c sn name else c
-               | None => c
-               end).
-    assert (H1 : TreeWf c1 /\ AggLocal c1).
-    { subst c1. destruct (a_server a) as [sn|]; [|auto]. destruct (is_member c sn); [apply srv_remove_ok; assumption|auto]. }
-    set (c2 := match a_alloc a with Some (l0, p0) => upd_alloc c1 l0 p0 (alloc_del_app name) | None => c1 end).
-    apply (TA_ext c1); [|exact H1].
-    assert (E2 : core3 c1 c2) by (subst c2; destruct (a_alloc a) as [[l0 p0]|]; [apply upd_alloc_core3|apply core3_refl]).
-    eapply core3_trans; [exact E2|]. eapply core3_trans; [apply release_core3|]. repeat split.
+  - (* ORemoveApp *) apply TA_remove_app. exact (conj HA (conj W L)).
   - apply (TA_ext c); [repeat split|auto].
   - apply (TA_ext c); [repeat split|auto].
   - apply (TA_ext c); [repeat split|auto].
@@ -2090,6 +2115,7 @@ Proof.
   - apply (TA_ext c); [repeat split|auto].
   - pose proof (Inv_schedule c choices (conj HA (conj W L))) as (_ & H).
     destruct (schedule c choices) as [[c' qs] pl]. exact H.
+  - apply TA_restore_op. exact (conj HA (conj W L)).
 Qed.
 
 Theorem Inv_step c o : wf_op c o -> wf_op_agg c o -> Inv c -> Inv (step c o).
